@@ -135,3 +135,29 @@ Definition render_record (r : lrecord) : list Z :=
   DOT :: SLASH :: lr_path r ++ [NUL].
 
 Definition render_listing (rs : list lrecord) : list Z := concat (map render_record rs).
+
+(** ** Vocabulary of the round-trip statement *)
+(** What `find` can print and the parser reads back unchanged: a non-empty path
+    without NUL (tabs, newlines, dots, a leading "./" are all fine), a size that
+    fits u64, whole seconds that fit i64 and are not negative, and any fraction
+    text without NUL and TAB (in particular any digits). *)
+Definition record_ok (r : lrecord) : Prop :=
+  lr_path r <> [] /\ ~ In NUL (lr_path r) /\
+  0 <= lr_size r <= U64_MAX /\ 0 <= lr_secs r <= I64_MAX /\
+  match lr_frac r with Some f => ~ In NUL f /\ ~ In TAB f | None => True end.
+
+(** The (path, size, whole-second mtime) triple of a record. *)
+Definition triple_of (r : lrecord) : list Z * file_meta :=
+  (lr_path r, {| fm_size := lr_size r; fm_mtime := lr_secs r |}).
+
+(** The map built by inserting the triples in listing order (a later record
+    with a path-equal key overwrites the value of the earlier one). *)
+Definition map_of (rs : list lrecord) : metamap :=
+  fold_left (fun m r => mm_insert (fst (triple_of r)) (snd (triple_of r)) m) rs [].
+
+(** No two records name the same file (as [PathBuf]s). *)
+Fixpoint distinct_paths (rs : list lrecord) : Prop :=
+  match rs with
+  | [] => True
+  | r :: rest => Forall (fun r' => path_cmp (lr_path r) (lr_path r') <> Eq) rest /\ distinct_paths rest
+  end.
